@@ -311,7 +311,7 @@ def obligations(tier):
                ("phased", 2, 1, 1, 1, True), ("unphased", 2, 1, 1, 1, True), ("raw", 2, 2, 1, 1, True)]
     else:
         cfg = [("raw", 2, 2, 1, 1, False), ("raw", 3, 3, 2, 2, False), ("phased", 2, 1, 1, 1, False), ("phased", 2, 2, 1, 1, False), ("unphased", 2, 2, 1, 1, False),
-               ("unphased", 3, 1, 2, 2, False), ("phased", 2, 1, 2, 2, False), ("phased", 2, 2, 1, 1, True), ("unphased", 2, 2, 1, 1, True), ("raw", 3, 2, 2, 1, True), ("phased", 3, 1, 1, 2, True)]
+               ("unphased", 3, 1, 1, 1, False), ("phased", 2, 1, 2, 2, False), ("phased", 2, 2, 1, 1, True), ("unphased", 2, 2, 1, 1, True), ("raw", 3, 2, 2, 1, True), ("phased", 2, 1, 1, 2, True)]
     for kind, n, m, t, q, dom in cfg:
         h = Predict(kind=kind, n=n, m=m, t=t, q=q, dominance=dom)
         h.weight = (4 if kind == "phased" else 3) ** (n * m)
@@ -321,7 +321,7 @@ def obligations(tier):
         h = Predict(kind="unphased", n=n, m=m, t=1, q=1, dominance=dom, ploidy=pl)
         h.weight = (pl + 1) ** (n * m)
         obs.append(h)
-    for n, m, t in ([(2, 1, 1), (1, 2, 1), (3, 1, 1), (2, 1, 2)] if tier == "quick" else [(2, 1, 1), (2, 2, 1), (3, 1, 1), (2, 1, 2), (3, 2, 1)]):
+    for n, m, t in ([(2, 1, 1), (1, 2, 1), (3, 1, 1), (2, 1, 2)] if tier == "quick" else [(2, 1, 1), (1, 2, 1), (3, 1, 1), (2, 1, 2), (4, 1, 1)]):
         h = Stats(n=n, m=m, t=t)
         h.weight = 4 ** (n * m) * 3
         obs.append(h)
@@ -481,7 +481,7 @@ _old_obligations = obligations
 
 def obligations(tier):
     obs = _old_obligations(tier)
-    for n, m, t in ([(2, 2, 1), (2, 2, 2)] if tier == "quick" else [(2, 2, 1), (3, 2, 1), (2, 2, 2), (3, 3, 1), (4, 2, 1)]):
+    for n, m, t in ([(2, 2, 1), (2, 2, 2)] if tier == "quick" else [(2, 2, 1), (3, 2, 1), (2, 2, 2), (2, 3, 1)]):
         h = RRFit(n=n, m=m, t=t)
         h.weight = 3 ** (n * m)
         obs.append(h)
